@@ -928,3 +928,122 @@ func (c *Ctx) descendAll(rule string, fi *FuncInfo, clause string) int {
 	})
 	return n
 }
+
+// RANGE-CLOSED / WG-WAITED: inside one function, a channel created there and ranged over by some
+// goroutine is closed somewhere in that function (otherwise the goroutines that range over it never
+// end and whoever waits for them hangs), and a WaitGroup that is Add-ed to is waited on after the
+// goroutines are launched (otherwise the function goes on while its workers still write).
+func (c *Ctx) rangeClosedAndWaited(rule string, funcs []*FuncInfo, clause string) (sites int) {
+	for _, fi := range funcs {
+		if fi == nil || fi.Decl.Body == nil {
+			continue
+		}
+		info := fi.Pkg.TypesInfo
+		// channels made in this function
+		chans := map[types.Object]token.Pos{}
+		wgs := map[types.Object]token.Pos{}
+		ast.Inspect(fi.Decl.Body, func(n ast.Node) bool {
+			switch x := n.(type) {
+			case *ast.AssignStmt:
+				for i, r := range x.Rhs {
+					if call, ok := unparen(r).(*ast.CallExpr); ok && i < len(x.Lhs) {
+						if id, isId := call.Fun.(*ast.Ident); isId && id.Name == "make" && len(call.Args) > 0 {
+							if _, isChan := info.TypeOf(call.Args[0]).Underlying().(*types.Chan); isChan {
+								if o := identObj(info, x.Lhs[i]); o != nil {
+									chans[o] = x.Pos()
+								}
+							}
+						}
+					}
+				}
+			case *ast.CallExpr:
+				if o := methodCallOn(info, x, "Add"); o != nil && isWaitGroup(o.Type()) {
+					if _, seen := wgs[o]; !seen {
+						wgs[o] = x.Pos()
+					}
+				}
+			}
+			return true
+		})
+		for ch, pos := range chans {
+			ranged := false
+			ast.Inspect(fi.Decl.Body, func(n ast.Node) bool {
+				if rs, ok := n.(*ast.RangeStmt); ok && identObj(info, rs.X) == ch {
+					ranged = true
+				}
+				return true
+			})
+			if !ranged {
+				continue
+			}
+			sites++
+			closed := false
+			ast.Inspect(fi.Decl.Body, func(n ast.Node) bool {
+				call, ok := n.(*ast.CallExpr)
+				if !ok {
+					return true
+				}
+				if id, isId := call.Fun.(*ast.Ident); isId && id.Name == "close" && len(call.Args) == 1 && identObj(info, call.Args[0]) == ch {
+					closed = true
+				}
+				// handed to a function of the repository that closes its parameter, or to a callback that closes it
+				for k, a := range call.Args {
+					if identObj(info, a) != ch {
+						continue
+					}
+					if g := calleeOf(info, call); g != nil && inRepo(g) {
+						if gi := c.FuncOfObj(g); gi != nil && gi.Decl.Body != nil {
+							p := paramObj(gi.Pkg.TypesInfo, gi.Decl, k)
+							ast.Inspect(gi.Decl.Body, func(m ast.Node) bool {
+								if cl, isCall := m.(*ast.CallExpr); isCall {
+									if id, isId := cl.Fun.(*ast.Ident); isId && id.Name == "close" && len(cl.Args) == 1 && identObj(gi.Pkg.TypesInfo, cl.Args[0]) == p && p != nil {
+										closed = true
+									}
+								}
+								return true
+							})
+						}
+					}
+				}
+				return true
+			})
+			// returned to the caller: the caller ranges, this function's goroutines close (handled by GO-CLOSE)
+			c.Check(closed, rule, fmt.Sprintf("%s/close(%s)", funcName(fi.Obj), ch.Name()), pos, "the channel some goroutine ranges over is closed in this function",
+				fmt.Sprintf("channel %s is ranged over but nothing in %s closes it: the goroutines reading it never leave their loop, and the wait for them never ends", ch.Name(), funcName(fi.Obj))).Clause = clause
+		}
+		for wg, pos := range wgs {
+			sites++
+			waited := false
+			ast.Inspect(fi.Decl.Body, func(n ast.Node) bool {
+				call, ok := n.(*ast.CallExpr)
+				if !ok {
+					return true
+				}
+				if o := methodCallOn(info, call, "Wait"); o == wg && call.Pos() > pos {
+					waited = true
+				}
+				// &wg handed to a function of the repository that waits on it
+				for k, a := range call.Args {
+					u, isU := unparen(a).(*ast.UnaryExpr)
+					if !(isU && u.Op == token.AND && identObj(info, u.X) == wg) && identObj(info, a) != wg {
+						continue
+					}
+					if g := calleeOf(info, call); g != nil && inRepo(g) {
+						if gi := c.FuncOfObj(g); gi != nil && gi.Decl.Body != nil {
+							p := paramObj(gi.Pkg.TypesInfo, gi.Decl, k)
+							for _, cl := range callsIn(gi.Decl.Body, true) {
+								if o := methodCallOn(gi.Pkg.TypesInfo, cl, "Wait"); o != nil && o == p {
+									waited = true
+								}
+							}
+						}
+					}
+				}
+				return true
+			})
+			c.Check(waited, rule, fmt.Sprintf("%s/%s.Wait", funcName(fi.Obj), wg.Name()), pos, "the WaitGroup is waited on after the goroutines are launched",
+				fmt.Sprintf("%s.Add is called in %s but nothing waits on %s afterwards: the function goes on (and reads or resets what the workers write) while they are still running", wg.Name(), funcName(fi.Obj), wg.Name())).Clause = clause
+		}
+	}
+	return
+}
